@@ -20,9 +20,30 @@ def process_settings():
             ["ParseCache.max_cache_size", str(P.ParseCache.max_cache_size)], ["sys.gettrace()", str(sys.gettrace())]]
 
 target, pre, post, seed, nsent = sys.argv[1], sys.argv[2], sys.argv[3], int(sys.argv[4]), int(sys.argv[5])
+nested = None
+if pre.startswith("@"):
+    # "@K": module K is imported WHILE the target is being imported - right after the target's grammar class has created its
+    # fifth rule object (a lazy import in another thread, or from a hook, lands there) - instead of before or after it
+    nested, pre = pre[1:], "-"
+    _orig_init = P.Rule.__init__
+    _st = {"n": 0, "done": False}
+
+    def _hooked(self, name, definition=None):
+        _orig_init(self, name, definition)
+        if type(self).__module__.endswith("." + target):
+            _st["n"] += 1
+            if _st["n"] == 5 and not _st["done"]:
+                _st["done"] = True
+                try:
+                    bundled.load(nested)
+                except Exception:  # noqa - e.g. K itself imports the (half-initialised) target: not this probe's business
+                    pass
+    P.Rule.__init__ = _hooked
 for m in ([] if pre == "-" else pre.split(",")):
     bundled.load(m)
 mod = bundled.load(target)
+if nested:
+    P.Rule.__init__ = _orig_init
 for m in ([] if post == "-" else post.split(",")):
     bundled.load(m)
 settings = process_settings()
